@@ -9,6 +9,18 @@ def R(n, e, f, **kw):
     # the walk over abandoned segments is unwound K+2 times (the cursor contract yields at most K segments); 14 is for the contract library's own loops
     return dict(dict(name=n, entry=e, harness="harness/seg_reclaim.c", enforce=f, replace=RECL, config="SCALED", label="B", K=2, functions=[f], timeout=600, unwind=14,
                      unwindset={f + ".0": 4}), **kw)
+def span_allocate_pairs():
+    # one run per slice index (see contracts/seg_span.h); quick: first page slice, an odd one, and two whose spans can exceed MI_MAX_SLICE_OFFSET_COUNT or reach the table end
+    out = []
+    for si in range(0, 64):
+        out.append(dict(name="span_allocate_si%d" % si, entry="h_span_allocate", harness="harness/seg_span.c", enforce="mi_segment_span_allocate", config="SCALED", label="PC", unwind=14,
+                  defs=["-DVC_SI=%d" % si, "-DVC_SPAN_NORMAL"], unwindset={"mi_segment_span_allocate.0": 34}, replace=["mi_segment_ensure_committed/c_ensure_committed_rec"],
+                  functions=["mi_segment_span_allocate"], timeout=900, tier=("quick" if si in (1, 7, 30, 63) else "thorough")))
+    for si in (1, 2, 3):      # the single page of a huge segment starts right behind the info slices
+        out.append(dict(name="span_allocate_huge_si%d" % si, entry="h_span_allocate", harness="harness/seg_span.c", enforce="mi_segment_span_allocate", config="SCALED", label="PC", unwind=14,
+                  defs=["-DVC_SI=%d" % si, "-DVC_SPAN_HUGE"], unwindset={"mi_segment_span_allocate.0": 34}, replace=["mi_segment_ensure_committed/c_ensure_committed_rec"],
+                  functions=["mi_segment_span_allocate"], timeout=900, cbmc_flags=NOPTR, tier=("quick" if si == 1 else "thorough")))
+    return out
 def pairs():
     P = lambda n, e, f, rep, **kw: dict(dict(name=n, entry=e, harness=HS, enforce=f, replace=rep + STUBS, config="SCALED", label="PC", functions=[f], timeout=600, cbmc_flags=NOPTR, unwind=14, unwindset={"_mi_commit_mask_committed_size.0": 66, "_mi_commit_mask_committed_size.1": 66}), **kw)
     return {
@@ -22,5 +34,9 @@ def pairs():
       "abandoned_collect": R("abandoned_collect", "h_abandoned_collect", "_mi_abandoned_collect", tier="thorough", timeout=3000),
       "try_reclaim": R("try_reclaim", "h_try_reclaim", "mi_segment_try_reclaim", tier="thorough", timeout=3000),
       "attempt_reclaim": R("attempt_reclaim", "h_attempt_reclaim", "_mi_segment_attempt_reclaim", label="P", K=None),
+      "span_page_of": dict(name="span_page_of", entry="h_span_page_of", harness="harness/seg_span.c", enforce=None, mode="dfcc", config="SCALED", label="P", unwind=14,
+                  replace=["mi_segment_span_allocate", "mi_segment_ensure_committed/c_ensure_committed_rec"], functions=["_mi_segment_page_of"], timeout=600, cbmc_flags=NOPTR),
+      "span_free": dict(name="span_free", entry="h_span_free", harness="harness/seg_span.c", enforce="mi_segment_span_free", config="SCALED", label="P", unwind=14,
+                  replace=["mi_span_queue_push/c_sq_push_rec", "mi_segment_schedule_purge/c_schedule_purge_rec"], functions=["mi_segment_span_free", "mi_span_queue_for"], timeout=600),
       "seg_ensure_committed": P("seg_ensure_committed", "h_ensure_committed", "mi_segment_ensure_committed", ["mi_segment_commit/c_seg_commit_rec"]),
     }
